@@ -43,6 +43,11 @@ func addC20Ops(l *OpLib) {
 			p.Txs = one(who, &tstypes.MsgCreateSpotOrder{OwnerAddress: w.A(who).Addr.String(), OrderType: typ, OrderPrice: tstypes.OrderPrice{BaseDenom: base, QuoteDenom: quote, Rate: Dec(rate)}, OrderAmount: amt, OrderTargetDenom: target})
 		})
 	}
+	// orders in the IBC VOUCHER (18 decimals, profile Denom != BaseDenom), traded in a constant-product pool: the
+	// trigger is a matter of the ORACLE price (2000 per WETH = 2e-9 uusdc per base unit), whatever the pool says
+	spot("ts_spot_limitsell_weth_unmet_own1", "own1", tstypes.SpotOrderType_LIMITSELL, VoucherDenom, "uusdc", "0.0000000022", sdk.NewCoin(VoucherDenom, math.NewIntWithDecimal(1, 17)), "uusdc")
+	spot("ts_spot_stoploss_weth_unmet_own2", "own2", tstypes.SpotOrderType_STOPLOSS, VoucherDenom, "uusdc", "0.0000000018", sdk.NewCoin(VoucherDenom, math.NewIntWithDecimal(2, 17)), "uusdc")
+	spot("ts_spot_limitbuy_weth_unmet_own1", "own1", tstypes.SpotOrderType_LIMITBUY, "uusdc", VoucherDenom, "450000000", C("uusdc", 300000000), VoucherDenom)
 	// market price of base in quote = P(base)/P(quote); ATOM = 5 by default
 	spot("ts_spot_limitbuy_met_own1", "own1", tstypes.SpotOrderType_LIMITBUY, "uusdc", "uatom", "0.5", C("uusdc", 2000000), "uatom")
 	spot("ts_spot_limitbuy_unmet_own1", "own1", tstypes.SpotOrderType_LIMITBUY, "uusdc", "uatom", "0.15", C("uusdc", 3000000), "uatom")
@@ -158,6 +163,20 @@ func addC20Ops(l *OpLib) {
 		})
 	}
 	exec("ts_execute_all_bot", false, false)
+	// ONE request per pending order, each its own transaction (a request naming a spot order whose trigger is not
+	// met fails as a whole on this tree — the skipped order's nil response is dereferenced — so an "all" request
+	// executes nothing as soon as one listed order is unmet)
+	l.Add("ts_execute_each_bot", "ts_execute", 0, func(w *World, p *BlockPlan) {
+		for _, o := range pendingSpotOf(w, "") {
+			p.Txs = append(p.Txs, PlannedTx{Signer: "bot", Msgs: []sdk.Msg{&tstypes.MsgExecuteOrders{Creator: w.A("bot").Addr.String(), SpotOrderIds: []uint64{o.OrderId}}}})
+		}
+		for _, o := range pendingPerpOf(w, "") {
+			p.Txs = append(p.Txs, PlannedTx{Signer: "bot", Msgs: []sdk.Msg{&tstypes.MsgExecuteOrders{Creator: w.A("bot").Addr.String(), PerpetualOrderIds: []uint64{o.OrderId}}}})
+		}
+		if len(p.Txs) == 0 {
+			p.Txs = one("bot", &tstypes.MsgExecuteOrders{Creator: w.A("bot").Addr.String(), SpotOrderIds: []uint64{1}})
+		}
+	})
 	exec("ts_execute_all_plus_missing_bot", true, false)
 	exec("ts_execute_all_twice", false, true)
 	// price move and execution in ONE block: orders that were unmet when created become met
@@ -204,6 +223,10 @@ func c20Snapshot(w *World) *c20Snap {
 			return atom
 		case "uelys":
 			return elys
+		case VoucherDenom:
+			// 18 decimals against the 6 of every other asset: the price of one BASE unit, on the scale on which a
+			// 6-decimals asset has its display price
+			return Dec(VoucherPrice).Quo(math.LegacyNewDec(1000000000000))
 		}
 		return math.LegacyOneDec()
 	}
@@ -375,7 +398,7 @@ func OracleC20() *Oracle {
 				f0, f1 := F(pre), F(post)
 				Clauses.Inc("conservation")
 				allowed := executedOK[n]
-				for _, d := range []string{"uusdc", "uatom", "uelys"} {
+				for _, d := range []string{"uusdc", "uatom", "uelys", VoucherDenom} {
 					lost := f0.AmountOf(d).Sub(f1.AmountOf(d))
 					if lost.IsPositive() && lost.GT(allowed.AmountOf(d)) {
 						cl := "owner_funds_lost_without_execution"
